@@ -223,6 +223,19 @@ pub fn emit(pp: &PublicParameters, seed: u64, budget: usize, lines: &[String]) -
             out.push(vline(3, &x, vb, &m, pb, "expect-reject:pi-extended"));
             m.push(BlsScalar::one());
             out.push(vline(3, &x, vb, &m, pb, "expect-reject:pi-extended"));
+            // longer extensions (also for circuits WITHOUT public inputs: every non-empty vector is a wrong statement)
+            let mut m = pis.clone();
+            m.push(BlsScalar::from(sm.next()));
+            out.push(vline(3, &x, vb, &m, pb, "expect-reject:pi-extended"));
+            for _ in 0..3 {
+                m.push(BlsScalar::from(sm.next()));
+            }
+            out.push(vline(3, &x, vb, &m, pb, "expect-reject:pi-extended"));
+            for vv in [1u8, 2u8] {
+                let mut m = pis.clone();
+                m.push(BlsScalar::zero());
+                out.push(vline(vv, &x, vb, &m, pb, "expect-reject:pi-extended-other-version"));
+            }
             if pis.len() > 1 {
                 let mut m = pis.clone();
                 m.rotate_left(1);
